@@ -13,14 +13,16 @@ TRUST = ("Trusted base: rustc's MIR construction and trait resolution on the ins
 # id -> (technique, claim text, design ref)
 CHECKS = {}
 
-NOT_APPLICABLE = {
-    "C06": "Frequency response of a time-varying recursive Pade-approximated filter to 0.01 neper over all orders/alpha: a numerical statement with no clause visible in code shape; no sound static argument in reach (DESIGN.md §6).",
-}
+NOT_APPLICABLE = {}
 
 
 def claim(pid, technique, text, ref=None):
     CHECKS[pid] = (technique, text, ref or ("DESIGN.md §5 " + pid))
 
+
+claim("C06", "numerical certificate on an evaluated constant (maximum principle + winding number + Lipschitz-sampled circle for the Pade row) + recurrence recognition over symbolised loop variables with parity-guarded feedback signs + statement-order rule for the simultaneous all-pass update + call-argument / def-use plumbing of the stage-zero branch, over rustc MIR",
+      "Sound static decision of the structural clauses of C06 (the frequency-response law itself is numerical and NOT decided): the Pade row the stage-zero filter reads approximates exp to 0.005 neper on the whole complex disc |w| <= 2 (the property's own numbers; any table of that quality passes) and is row N-1 of the triangular table with N >= 5; each of the two cascaded Pade sections is direct form II with stages N-1 down to 1, feedback signs + for odd and - for even stages, the fed-back sample stored in state 0 before the feed-forward sum; the first section's basic filter is b1 * (d <- (1-a^2) u + a d), the second's is the warped FIR filter (d[0] <- x, one all-pass sweep of the whole delay line computed from the old values, y = sum_{i>=2} d[i] b[i], one delay element per cepstral coefficient); in Vocoder::synthesize the excitation is multiplied by exp(b0) before df(x, self.alpha, b), b moves by (b_next - b)/fperiod per sample over all coefficients and equals b_next = mc2b(MelCepstrum::new(spectrum, self.alpha)) afterwards (and on the first frame); mc2b is b_last = c_last, b_i = c_i - alpha b_{i+1} downwards, a copy for alpha = 0. Each is a necessary condition of `the pulse response has log-magnitude sum c_m cos(m w~)`. NOT decided: the response law / the 0.01 neper figure end to end, the warped frequency axis, equivalent filter realisations in a different state representation (reported until taught), the SIMD FIR variant (does not compile here).",
+      "DESIGN.md §9.9")
 
 claim("C13", "recurrence recognition over symbolised loop variables + role analysis of the parameter vector's elements (which elements reach a cosine, which the gain slot) + parity-guarded aggregate values + call-argument plumbing, over rustc MIR",
       "Sound static decision of the structural clauses of C13, all in the LSP -> LPC -> MGC conversion: the order is len - 1 and A(z) is built from the line spectral frequencies only (P factors from elements 1,3,.., Q factors from elements 2,4,.., each -2cos w; element 0, the gain, never enters a cosine - the pinned tree violated this, repaired); section counts per parity; the two second-order-section chains, their inputs, a[k-1] = -(P+Q)/2 and the final shift; the gain slot (exp under log gain), the -stage scaling after ignorm and mgc2mgc(len-1, alpha, gamma); gamma = -1/stage and the constructor argument order. These are necessary conditions of `the response is K/|A|^s`. NOT decided: the MGLSA filter sections, frequency warping, the 0.001 neper law, decay for well-separated frequencies (numerical).")
